@@ -46,6 +46,20 @@ J gen(uint64_t seed, bool thorough) {
   static const char *kinds[] = {"distance", "distanceZ", "dihedral", "angle", "distanceXY"};
   int ncv = (int)r.range(1, 3);
   J jcv = J::arr(); std::string sig;
+  bool vector_mode = r.chance(0.03);
+  sc["vector"] = vector_mode;
+  if (vector_mode) {
+    // one vector-valued variable (all pair distances between two groups), gathered element by element with weights
+    ncv = 0;
+    std::vector<std::vector<int>> g = pick_groups(r, ec.natoms, 2, 3);
+    auto grp = [&](std::vector<int> const &v) { std::string t; for (int a : v) t += " " + std::to_string(a + 1); return t; };
+    sc["vec_base"] = "colvar {\n  name v0\n  width 1\n  distancePairs {\n    group1 { atomNumbers" + grp(g[0]) + " }\n    group2 { atomNumbers" + grp(g[1]) + " }\n  }\n}\n";
+    size_t n = g[0].size() * g[1].size();
+    static const double wv[] = {1, 2, 0.5, 0.25, 3};
+    J w = J::arr(); bool use_w = r.chance(0.6); for (size_t i = 0; i < n; i++) w.push(use_w ? wv[r.below(5)] : 1.0);
+    sc["weights"] = w; sc["use_weights"] = use_w; sc["vec_nbins"] = (long long)r.range(3, 9); sc["vec_cover"] = r.uniform(0.5, 1.2);
+    sig += "vec" + std::to_string(n) + (use_w ? "w" : "") + "+";
+  }
   for (int i = 0; i < ncv; i++) {
     CvSpec c = make_cv(r, ec.natoms, kinds[r.below(5)], "v" + std::to_string(i));
     place_grid(c, m, T, r, (int)r.range(3, 9), r.uniform(0.5, 1.3));
@@ -83,20 +97,25 @@ RunResult run(J const &plan) {
   scenario_from_json(sc, ec, config, T);
   J const &jcv = sc.at("cvinfo");
   size_t nd = jcv.size();
+  bool vector_mode = sc.at("vector").as_bool();
+  std::vector<double> weights; if (vector_mode) { for (auto const &w : sc.at("weights").a) weights.push_back(w.as_num()); nd = 1; }
+  std::vector<double> vec_seen; std::string vec_grid;
   // ---- probe pass: the values the library itself computes along the trajectory
   std::vector<std::vector<double>> seen(nd);
   {
     SimRun sim(1);
     std::unique_ptr<Engine> e(new Engine(ec));
     std::string conf = config; for (auto const &o : jcv.a) conf += o.at("base").as_str();
+    if (vector_mode) conf += sc.at("vec_base").as_str();
     if (e->configure(conf) != COLVARS_OK || cvm::get_error()) { res.counters["probe.configuration_refused"]++; return res; }
     e->run((int)T, false);
-    for (auto const &r : e->rec) for (size_t i = 0; i < nd; i++) seen[i].push_back(r.cv[(size_t)r.cv_off[i]]);
+    if (vector_mode) { for (auto const &r : e->rec) for (double v : r.cv) vec_seen.push_back(v); }
+    else for (auto const &r : e->rec) for (size_t i = 0; i < nd; i++) seen[i].push_back(r.cv[(size_t)r.cv_off[i]]);
   }
   // ---- grids
   std::vector<Dim> dims; std::string cvtext, names;
   long edge_dims = 0;
-  for (size_t i = 0; i < nd; i++) {
+  for (size_t i = 0; i < jcv.size(); i++) {
     J const &o = jcv.a[i];
     Dim d; d.name = o.at("name").as_str(); d.periodic = o.at("periodic").as_bool(); d.lower = o.at("lower").as_num(); d.width = o.at("width").as_num(); d.upper = o.at("upper").as_num();
     if (o.at("edges").as_bool()) {
@@ -112,13 +131,29 @@ RunResult run(J const &plan) {
     cvtext += base; names += (i ? " " : "") + d.name;
     dims.push_back(d);
   }
+  if (vector_mode) {
+    double lo = vec_seen[0], hi = vec_seen[0]; for (double v : vec_seen) { lo = std::min(lo, v); hi = std::max(hi, v); }
+    long nb = (long)sc.at("vec_nbins").as_int(); double cover = sc.at("vec_cover").as_num();
+    double mid = 0.5 * (lo + hi), half = 0.5 * (hi - lo) * cover;
+    Dim d; d.name = "v0"; d.periodic = false; d.lower = strtod(num(mid - half).c_str(), nullptr); d.width = strtod(num(2 * half / (double)nb).c_str(), nullptr); d.upper = d.lower + d.width * (double)nb; d.n = (int)nb;
+    // (a vector variable takes no boundaries of its own: the grid is given to the histogram)
+    cvtext = sc.at("vec_base").as_str(); names = "v0"; dims.assign(1, d);
+    vec_grid = "  histogramGrid {\n    width " + full(d.width) + "\n    lowerBoundary " + full(d.lower) + "\n    upperBoundary " + full(d.upper) + "\n  }\n";
+    d.n = (int)std::floor((d.upper - d.lower) / d.width + 0.5); dims[0].n = d.n;
+  }
   long out_freq = (long)sc.at("out_freq").as_int();
-  std::string hist = "histogram {\n  name h\n  colvars " + names + "\n  outputFile h.dat\n" + (sc.at("dx").as_bool() ? "  outputFileDX h.dx\n" : "") + (out_freq ? "  outputFreq " + std::to_string(out_freq) + "\n" : "") + "}\n";
+  std::string hist = "histogram {\n  name h\n  colvars " + names + "\n  outputFile h.dat\n" + (sc.at("dx").as_bool() ? "  outputFileDX h.dx\n" : "") + (out_freq ? "  outputFreq " + std::to_string(out_freq) + "\n" : "");
+  if (vector_mode) { hist += vec_grid; hist += "  gatherVectorColvars on\n"; if (sc.at("use_weights").as_bool()) { hist += "  weights"; for (double w : weights) hist += " " + num(w); hist += "\n"; } }
+  hist += "}\n";
   std::string conf = config + cvtext + hist;
   SimRun sim(1);
   std::unique_ptr<Engine> e(new Engine(ec));
-  if (e->configure(conf) != COLVARS_OK || cvm::get_error()) { res.counters["probe.configuration_refused"]++; res.detail = e->last_error(); sim.finish(res); return res; }
+  if (e->configure(conf) != COLVARS_OK || cvm::get_error()) {
+    if (vector_mode) { res.nontrivial = true; res.class_hash = fnv_str(sc.at("template").as_str(), 15); res.features = "vector"; res.fail("histogram", "vector_histogram_refused", "a histogram with gatherVectorColvars over a vector variable (documented) is refused: " + e->last_error()); sim.finish(res); return res; }
+    res.counters["probe.configuration_refused"]++; res.detail = e->last_error(); sim.finish(res); return res;
+  }
   // the library may have adjusted sizes: they must be what the configuration says
+  std::map<std::vector<int>, double> model_w; double weight_in_range = 0;   // vector mode: weighted
   std::map<std::vector<int>, long> model; long eligible_in_range = 0, on_edge = 0, out_of_range = 0, steps_compared = 0, restarts = 0;
   bool first_of_instance = true; long last_step = -1;
   auto hook = [&](Engine *ep) {
@@ -129,7 +164,14 @@ RunResult run(J const &plan) {
       if (r.err) { res.fail("histogram", "step_error", at + ": " + ep->last_error()); return; }
       bool eligible = !first_of_instance && !r.continuing && step != last_step && cvm::step_relative() > 0;
       first_of_instance = false; last_step = step;
-      if (eligible) {
+      if (eligible && vector_mode) {
+        for (size_t iv = 0; iv < r.cv.size(); iv++) {
+          double q = (r.cv[iv] - dims[0].lower) / dims[0].width; long b = (long)std::floor(q);
+          if (q == std::floor(q)) on_edge++;
+          if (b < 0 || b >= dims[0].n) { out_of_range++; continue; }
+          model_w[std::vector<int>{(int)b}] += iv < weights.size() ? weights[iv] : 1.0; weight_in_range += iv < weights.size() ? weights[iv] : 1.0; eligible_in_range++;
+        }
+      } else if (eligible) {
         std::vector<int> ix(nd); bool in = true;
         for (size_t i = 0; i < nd; i++) {
           double x = r.cv[(size_t)r.cv_off[i]];
@@ -154,10 +196,14 @@ RunResult run(J const &plan) {
       for (size_t a = 0; a < total; a++) {
         auto it = model.find(ix); long mc = it == model.end() ? 0 : it->second;
         sum += data[a];
+        if (vector_mode) {
+          auto iw = model_w.find(ix); double mw = iw == model_w.end() ? 0.0 : iw->second;
+          if (data[a] != mw) { res.fail("histogram", data[a] > mw ? "bin_overcounted/vector" : "bin_undercounted/vector", at + ": bin [" + std::to_string(ix[0]) + "] holds " + fmt_double(data[a]) + ", the weights of the eligible elements that fell into it add up to " + fmt_double(mw)); return; }
+        } else
         if (data[a] != (double)mc) { std::string b; for (int q : ix) b += std::to_string(q) + " "; res.fail("histogram", data[a] > (double)mc ? "bin_overcounted" : "bin_undercounted", at + ": bin [" + b + "] holds " + fmt_double(data[a]) + ", " + std::to_string(mc) + " eligible samples fell into it"); return; }
         for (size_t i = nd; i-- > 0;) { if (++ix[i] < dims[i].n) break; ix[i] = 0; }
       }
-      if (sum != (double)eligible_in_range) { res.fail("histogram", "total_count", at + ": counts add up to " + fmt_double(sum) + ", " + std::to_string(eligible_in_range) + " in-range eligible samples so far"); return; }
+      if (vector_mode ? sum != weight_in_range : sum != (double)eligible_in_range) { res.fail("histogram", "total_count", at + ": counts add up to " + fmt_double(sum) + ", " + std::to_string(eligible_in_range) + " in-range eligible samples so far"); return; }
       steps_compared++;
     };
   };
@@ -210,7 +256,8 @@ RunResult run(J const &plan) {
         for (size_t i = 0; i < nd; i++) { double c = dims[i].lower + dims[i].width * (0.5 + ix[i]); if (!close_enough(rows[a][i], c, 1e-12, 1e-12)) { res.fail("grid_file", "bin_centre", "line " + std::to_string(a) + ": coordinate " + fmt_double(rows[a][i]) + ", centre of bin " + std::to_string(ix[i]) + " is " + fmt_double(c)); break; } }
         if (res.violation) break;
         auto it = model.find(ix); long mc = it == model.end() ? 0 : it->second;
-        if (rows[a][nd] != (double)mc) { std::string b; for (int q : ix) b += std::to_string(q) + " "; res.fail("grid_file", "data_differs", "h.dat bin [" + b + "] = " + fmt_double(rows[a][nd]) + ", " + std::to_string(mc) + " samples fell into it"); break; }
+        if (vector_mode) { auto iw = model_w.find(ix); double mw = iw == model_w.end() ? 0.0 : iw->second; if (!close_enough(rows[a][nd], mw, 1e-13, 0)) { res.fail("grid_file", "data_differs/vector", "h.dat bin [" + std::to_string(ix[0]) + "] = " + fmt_double(rows[a][nd]) + ", weights add up to " + fmt_double(mw)); break; } }
+        else if (rows[a][nd] != (double)mc) { std::string b; for (int q : ix) b += std::to_string(q) + " "; res.fail("grid_file", "data_differs", "h.dat bin [" + b + "] = " + fmt_double(rows[a][nd]) + ", " + std::to_string(mc) + " samples fell into it"); break; }
         file_bins++;
         for (size_t i = nd; i-- > 0;) { if (++ix[i] < dims[i].n) break; ix[i] = 0; }
       }
@@ -226,7 +273,7 @@ RunResult run(J const &plan) {
   res.counters["probe.file_bins_checked"] += file_bins;
   res.nontrivial = steps_compared > 0 && eligible_in_range > 0;
   res.class_hash = fnv_str(sc.at("template").as_str(), 15);
-  res.features = std::to_string(nd) + "d" + (edge_dims ? "+edges" : "") + (restarts ? "+restart" : "") + (ec.binary_state ? "+binary" : "");
+  res.features = std::string(vector_mode ? "vector" : "") + std::to_string(nd) + "d" + (edge_dims ? "+edges" : "") + (restarts ? "+restart" : "") + (ec.binary_state ? "+binary" : "");
   uint64_t fp = 1469598103934665603ULL; fp = fnv_u64((uint64_t)eligible_in_range, fp); fp = fnv_u64((uint64_t)on_edge, fp);
   res.fingerprint = fnv_u64(fp, res.fingerprint);
   return res;
